@@ -362,7 +362,10 @@ func racePlan(g *vlib.Rng) []raceCase {
 func runRaceStream(g *vlib.Rng) {
 	cases := racePlan(g) // drawn first: the PRNG stream does not depend on whether -race is available
 	tb := time.Now()
+	// the supervisor's clock: the build and the child each have their own limit of raceKillAfterS seconds
+	announceFor(map[string]interface{}{"race-stream": "go build -race"}, raceKillAfterS+60)
 	bin, repo, why := raceBuild()
+	announceFor(map[string]interface{}{"race-stream": "child under the race detector", "cases": len(cases)}, raceKillAfterS+60)
 	buildS := time.Since(tb).Seconds()
 	if why != "" {
 		r.Hit("race:unavailable")
